@@ -3,6 +3,7 @@ import QiVerif.Driver.C01
 import QiVerif.Driver.C20
 import QiVerif.Driver.C19
 import QiVerif.Driver.C16
+import QiVerif.Driver.C09
 open QiVerif.Driver
 
 /-- parameters handed over by ./check from the regenerated constants -/
@@ -26,6 +27,7 @@ def dispatch (p : Params) (st : DState) (line : String) : DState × String :=
     if op.startsWith "msg." then (st, C01.run p.maxPayload ws)
     else if op.startsWith "conv" then (st, C20.run ws)
     else if op.startsWith "session." then (st, C19.run ws)
+    else if op.startsWith "sig." then (st, C09.run ws)
     else if op.startsWith "svc." then
       let (s', out) := C16.run st.svc ws
       ({ st with svc := s' }, out)
